@@ -411,7 +411,7 @@ fn run(args: &Args, rep: &mut Report) {
         rep.note(n);
     }
     if acc.evals > 0 || acc.failed() {
-        rep.add("std-streams-on-pty", true, "the 3072 configurations of the decision cross product x {Stdout, StdoutLock, Stderr, StderrLock, Box<Stdout>, anstream::stderr()} in a child process whose stdout and stderr are a pty slave", vec![acc]);
+        rep.add("std-streams-on-pty", true, "the 3072 configurations of the decision cross product x {Stdout, StdoutLock, Stderr, StderrLock, Box<Stdout>, anstream::stdout(), anstream::stderr()} in child processes with both standard streams, only stdout, or only stderr on a pty slave (each stream judged by its own kind)", vec![acc]);
     }
 
     for (k, v) in saved {
@@ -434,7 +434,7 @@ fn pty_child(result: &str) {
     let cis: [Option<Vec<u8>>; 3] = [None, Some(vec![]), Some(b"true".to_vec())];
     let mut n = 0u64;
     let mut failure: Option<String> = None;
-    let term_ok = std::io::IsTerminal::is_terminal(&std::io::stdout()) && std::io::IsTerminal::is_terminal(&std::io::stderr());
+    let term_ok = std::io::IsTerminal::is_terminal(&std::io::stdout()) || std::io::IsTerminal::is_terminal(&std::io::stderr());
     'outer: for global in 0u8..4 {
         for nc in &four {
             for cf in &four {
@@ -443,20 +443,28 @@ fn pty_child(result: &str) {
                         for ci in &cis {
                             let cfg = Config { global, env: [nc.clone(), cf.clone(), cc.clone(), term.clone(), ci.clone()], terminal: true, colorterm: None };
                             apply_env(&cfg);
-                            let want = expected(&cfg);
-                            let got: [(&str, ColorChoice, bool); 6] = [
+                            // each stream is judged by its own kind (the parent also runs this child with
+                            // only one of stdout / stderr on the pty)
+                            let out_tty = std::io::IsTerminal::is_terminal(&std::io::stdout());
+                            let err_tty = std::io::IsTerminal::is_terminal(&std::io::stderr());
+                            let want_out = expected(&Config { terminal: out_tty, ..cfg.clone() });
+                            let want_err = expected(&Config { terminal: err_tty, ..cfg.clone() });
+                            let got: [(&str, ColorChoice, bool); 7] = [
                                 ("Stdout", AutoStream::choice(&std::io::stdout()), AutoStream::auto(std::io::stdout()).is_terminal()),
                                 ("StdoutLock", AutoStream::choice(&std::io::stdout().lock()), AutoStream::auto(std::io::stdout().lock()).is_terminal()),
                                 ("Stderr", AutoStream::choice(&std::io::stderr()), AutoStream::auto(std::io::stderr()).is_terminal()),
                                 ("StderrLock", AutoStream::choice(&std::io::stderr().lock()), AutoStream::auto(std::io::stderr().lock()).is_terminal()),
                                 ("Box<Stdout>", AutoStream::choice(&Box::new(std::io::stdout())), AutoStream::auto(Box::new(std::io::stdout())).is_terminal()),
                                 // current_choice reports the mode: AlwaysAnsi for every colour-enabled decision
-                                ("anstream::stderr()", if anstream::stderr().current_choice() == mode_of(want) { want } else { anstream::stderr().current_choice() }, anstream::stderr().is_terminal()),
+                                ("anstream::stderr()", if anstream::stderr().current_choice() == mode_of(want_err) { want_err } else { anstream::stderr().current_choice() }, anstream::stderr().is_terminal()),
+                                ("anstream::stdout()", if anstream::stdout().current_choice() == mode_of(want_out) { want_out } else { anstream::stdout().current_choice() }, anstream::stdout().is_terminal()),
                             ];
                             for (name, g, t) in got {
                                 n += 1;
-                                if g != want || !t {
-                                    failure = Some(format!("{name} on a pty: choice = {:?} (is_terminal {t}), expected {:?} for {}", g, want, describe(&cfg)));
+                                let is_out = name.contains("tdout");
+                                let (want, tty) = if is_out { (want_out, out_tty) } else { (want_err, err_tty) };
+                                if g != want || t != tty {
+                                    failure = Some(format!("{name} (stdout terminal: {out_tty}, stderr terminal: {err_tty}): choice = {:?} (is_terminal {t}), expected {:?} for {}", g, want, describe(&cfg)));
                                     break 'outer;
                                 }
                             }
@@ -496,29 +504,43 @@ fn check_std_on_pty(acc: &mut Acc, rep_note: &mut Vec<String>) {
         Ok(e) => e,
         Err(_) => return,
     };
-    let (so, se) = match (slave.try_clone(), slave.try_clone()) {
-        (Ok(a), Ok(b)) => (a, b),
-        _ => return,
-    };
-    let status = std::process::Command::new(exe).arg("--pty-child").arg(&result).stdin(std::process::Stdio::null()).stdout(so).stderr(se).status();
-    drop(slave);
-    let out = std::fs::read(&result).ok().and_then(|b| serde_json::from_slice::<Value>(&b).ok());
-    let _ = std::fs::remove_file(&result);
-    match (status, out) {
-        (Ok(st), Some(v)) if st.success() => {
-            if v["terminal"].as_bool() != Some(true) {
-                rep_note.push("std-streams-on-pty: the child's stdout/stderr were not terminals".into());
+    // three layouts: both standard streams on the pty, only stdout, only stderr
+    for layout in ["both", "stdout-only", "stderr-only"] {
+        let (so, se) = match (slave.try_clone(), slave.try_clone()) {
+            (Ok(a), Ok(b)) => (a, b),
+            _ => return,
+        };
+        let mut cmd = std::process::Command::new(&exe);
+        cmd.arg("--pty-child").arg(&result).stdin(std::process::Stdio::null());
+        match layout {
+            "both" => cmd.stdout(so).stderr(se),
+            "stdout-only" => cmd.stdout(so).stderr(std::process::Stdio::null()),
+            _ => cmd.stdout(std::process::Stdio::null()).stderr(se),
+        };
+        let status = cmd.status();
+        let out = std::fs::read(&result).ok().and_then(|b| serde_json::from_slice::<Value>(&b).ok());
+        let _ = std::fs::remove_file(&result);
+        match (status, out) {
+            (Ok(st), Some(v)) if st.success() => {
+                if v["terminal"].as_bool() != Some(true) {
+                    rep_note.push("std-streams-on-pty: the child's stdout/stderr were not terminals".into());
+                    return;
+                }
+                acc.evals += v["checked"].as_u64().unwrap_or(0);
+                acc.nontrivial_counted = acc.evals;
+                if let Some(f) = v["failure"].as_str() {
+                    acc.fail("std-streams-on-pty", json!({"layout": layout}), f.to_owned());
+                    return;
+                }
+            }
+            _ => {
+                rep_note.push("std-streams-on-pty: the child process could not be run".into());
                 return;
             }
-            acc.evals = v["checked"].as_u64().unwrap_or(0);
-            acc.nontrivial_counted = acc.evals;
-            acc.samples.push(json!({"streams": ["Stdout", "StdoutLock", "Stderr", "StderrLock", "Box<Stdout>", "anstream::stderr()"]}));
-            if let Some(f) = v["failure"].as_str() {
-                acc.fail("std-streams-on-pty", json!({}), f.to_owned());
-            }
         }
-        _ => rep_note.push("std-streams-on-pty: the child process could not be run".into()),
     }
+    drop(slave);
+    acc.samples.push(json!({"streams": ["Stdout", "StdoutLock", "Stderr", "StderrLock", "Box<Stdout>", "anstream::stderr()", "anstream::stdout()"], "layouts": ["both on the pty", "stdout only", "stderr only"]}));
 }
 
 fn replay(sub: &str, case: &Value) -> Result<(), String> {
